@@ -8,7 +8,8 @@ TRUSTED = [
     "Model/RRuleStr.lean is a hand model of rrule.__str__ and of _rrulestr._parse_rfc/_parse_rfc_rrule/_handle_* at the level of the keyword arguments handed to rrule()/rruleset; tied by the rrs.str / rrs.parse correspondence ops (the implementation's constructor calls are recorded in-process)",
     "date values go through parser.parse in the real code (C02); the model covers only the compact form YYYYMMDDTHHMMSS[Z] that __str__ emits — other spellings are compared on the implementation only",
     "rrule(**kwargs) itself is C01's constructor; 'same kwargs => same occurrences' is determinism of C01's model",
-    "TZID / tzids / tzinfos / ignoretz resolution is option plumbing: tied by the oracle on the implementation (str_variants_partial)",
+    "TZID / tzids / tzinfos / ignoretz resolution is option plumbing: tied by the oracle on the implementation only (no theorem)",
+    "the unfold loop (ICal.unfold, shared with C17) and RDATE/EXDATE/DTSTART parameters are in the model and the correspondence but no theorem is stated about them; multi_line_builds_set is for parameter-less lines joined by newlines without unfold",
 ]
 ASSUMPTIONS = [
     "texts in the correspondence are ASCII (str.upper/split/splitlines/int are modelled for ASCII)",
@@ -307,8 +308,77 @@ def correspondence(ctx):
 def same_occurrences(a, b, n=12):
     return head(iter(a), n) == head(iter(b), n)
 
+def oracle_sets(ctx):
+    from dateutil import rrule as R
+    rng = ctx.subrng("oracle-sets")
+    # (4) multi-line inputs build the corresponding set; forceset; compatible
+    for i in range(ctx.budget(120, 3000)):
+        if ctx.escalated and len(ctx.violations) >= 5:
+            break
+        ds = datetime.datetime(rng.choice([1997, 2000, 2024]), rng.randint(1, 12), rng.randint(1, 28), 9, 0, 0)
+        stamp = ds.strftime("%Y%m%dT%H%M%S")
+        r1 = "FREQ=DAILY;COUNT=%d" % rng.randint(1, 6)
+        if rng.random() < 0.5:
+            r1 += ";BYHOUR=10"      # the start (09:00) is then not an occurrence of the rule: `compatible` must add it
+        r2 = "FREQ=WEEKLY;COUNT=%d;BYDAY=%s" % (rng.randint(1, 4), rng.choice(WDN))
+        rd = [ds + datetime.timedelta(days=rng.randint(0, 20), hours=rng.choice([0, 0, 3])) for _ in range(rng.randint(0, 3))]
+        exd = [ds + datetime.timedelta(days=rng.randint(0, 6)) for _ in range(rng.randint(0, 2))]
+        use_ex = rng.random() < 0.5
+        use_r2 = rng.random() < 0.5
+        lines = ["DTSTART:" + stamp, "RRULE:" + r1]
+        if use_r2: lines.append("RRULE:" + r2)
+        if rd: lines.append("RDATE:" + ",".join(d.strftime("%Y%m%dT%H%M%S") for d in rd))
+        if use_ex: lines.append("EXRULE:FREQ=DAILY;INTERVAL=2;COUNT=2")
+        if exd: lines.append("EXDATE:" + ",".join(d.strftime("%Y%m%dT%H%M%S") for d in exd))
+        body = lines[1:]; rng.shuffle(body)
+        txt = "\n".join([lines[0]] + body)
+        opts = rng.choice([{}, {"forceset": True}, {"compatible": True}, {"unfold": True}])
+        if "unfold" in opts: txt = fold(rng, txt)
+        ref = R.rruleset()
+        ref.rrule(R.rrulestr(r1, dtstart=ds))
+        if use_r2: ref.rrule(R.rrulestr(r2, dtstart=ds))
+        for d in rd: ref.rdate(d)
+        if use_ex: ref.exrule(R.rrulestr("FREQ=DAILY;INTERVAL=2;COUNT=2", dtstart=ds))
+        for d in exd: ref.exdate(d)
+        if opts.get("compatible"): ref.rdate(ds)
+        ctx.case((txt, tuple(sorted(opts)))); ctx.count("set_cases")
+        try:
+            got = R.rrulestr(txt, **opts)
+            is_set = isinstance(got, R.rruleset)
+            want_set = bool(use_r2 or rd or use_ex or exd or opts.get("forceset") or opts.get("compatible"))
+            if is_set != want_set or list(got) != list(ref):
+                ctx.violation("multi-line text does not build the corresponding set", {"kind": "set", "text": txt, "opts": sorted(opts)},
+                              {"got": [d.isoformat() for d in list(got)[:6]], "want": [d.isoformat() for d in list(ref)[:6]], "is_set": is_set})
+        except Exception as ex:
+            ctx.violation("multi-line text rejected: %s" % exc_kind(ex), {"kind": "set", "text": txt, "opts": sorted(opts)}, repr(ex))
+
+def oracle_malformed(ctx):
+    from dateutil import rrule as R
+    # (5) unknown or malformed parts raise ValueError
+    for m in MALFORMED:
+        for opts in ({}, {"forceset": True}):
+            ctx.case((m, tuple(sorted(opts)), "malformed"), nontrivial=False); ctx.count("malformed")
+            try:
+                with warnings.catch_warnings():
+                    warnings.simplefilter("ignore")
+                    r = R.rrulestr(m, **opts)
+                out = "accepted"
+            except ValueError:
+                out = "ValueError"
+            except Exception as ex:
+                out = exc_kind(ex)
+            # a bare DTSTART with forceset is a (possibly empty) set, not malformed; an empty rule list is rejected
+            if m.startswith("DTSTART:") and "," not in m and out == "accepted" and opts:
+                continue
+            if out != "ValueError":
+                ctx.violation("rrulestr(%r, %s): %s instead of ValueError" % (m, opts, out), {"kind": "malformed", "text": m, "opts": sorted(opts), "outcome": out}, None)
+
+
 def oracle(ctx):
     from dateutil import rrule as R, tz
+    # the cheap sections first, so that the failing-input search after a correspondence mismatch reaches them early
+    oracle_sets(ctx)
+    oracle_malformed(ctx)
     rng = ctx.subrng("oracle")
     n = ctx.budget(500, 15000)
     shown = 0
@@ -395,62 +465,6 @@ def oracle(ctx):
                         ctx.violation("ignoretz=True does not give the naive rule", {"kind": "tz-ignore", "text": txt}, None)
             except (ValueError, Timeout):
                 ctx.count("skipped_ctor_or_slow")
-    # (4) multi-line inputs build the corresponding set; forceset; compatible
-    for i in range(ctx.budget(120, 3000)):
-        if ctx.escalated and len(ctx.violations) >= 5:
-            break
-        ds = datetime.datetime(rng.choice([1997, 2000, 2024]), rng.randint(1, 12), rng.randint(1, 28), 9, 0, 0)
-        stamp = ds.strftime("%Y%m%dT%H%M%S")
-        r1 = "FREQ=DAILY;COUNT=%d" % rng.randint(1, 6)
-        r2 = "FREQ=WEEKLY;COUNT=%d;BYDAY=%s" % (rng.randint(1, 4), rng.choice(WDN))
-        rd = [ds + datetime.timedelta(days=rng.randint(0, 20), hours=rng.choice([0, 0, 3])) for _ in range(rng.randint(0, 3))]
-        exd = [ds + datetime.timedelta(days=rng.randint(0, 6)) for _ in range(rng.randint(0, 2))]
-        use_ex = rng.random() < 0.5
-        use_r2 = rng.random() < 0.5
-        lines = ["DTSTART:" + stamp, "RRULE:" + r1]
-        if use_r2: lines.append("RRULE:" + r2)
-        if rd: lines.append("RDATE:" + ",".join(d.strftime("%Y%m%dT%H%M%S") for d in rd))
-        if use_ex: lines.append("EXRULE:FREQ=DAILY;INTERVAL=2;COUNT=2")
-        if exd: lines.append("EXDATE:" + ",".join(d.strftime("%Y%m%dT%H%M%S") for d in exd))
-        body = lines[1:]; rng.shuffle(body)
-        txt = "\n".join([lines[0]] + body)
-        opts = rng.choice([{}, {"forceset": True}, {"compatible": True}, {"unfold": True}])
-        if "unfold" in opts: txt = fold(rng, txt)
-        ref = R.rruleset()
-        ref.rrule(R.rrulestr(r1, dtstart=ds))
-        if use_r2: ref.rrule(R.rrulestr(r2, dtstart=ds))
-        for d in rd: ref.rdate(d)
-        if use_ex: ref.exrule(R.rrulestr("FREQ=DAILY;INTERVAL=2;COUNT=2", dtstart=ds))
-        for d in exd: ref.exdate(d)
-        if opts.get("compatible"): ref.rdate(ds)
-        ctx.case((txt, tuple(sorted(opts)))); ctx.count("set_cases")
-        try:
-            got = R.rrulestr(txt, **opts)
-            is_set = isinstance(got, R.rruleset)
-            want_set = bool(use_r2 or rd or use_ex or exd or opts.get("forceset") or opts.get("compatible"))
-            if is_set != want_set or list(got) != list(ref):
-                ctx.violation("multi-line text does not build the corresponding set", {"kind": "set", "text": txt, "opts": sorted(opts)},
-                              {"got": [d.isoformat() for d in list(got)[:6]], "want": [d.isoformat() for d in list(ref)[:6]], "is_set": is_set})
-        except Exception as ex:
-            ctx.violation("multi-line text rejected: %s" % exc_kind(ex), {"kind": "set", "text": txt, "opts": sorted(opts)}, repr(ex))
-    # (5) unknown or malformed parts raise ValueError
-    for m in MALFORMED:
-        for opts in ({}, {"forceset": True}):
-            ctx.case((m, tuple(sorted(opts)), "malformed"), nontrivial=False); ctx.count("malformed")
-            try:
-                with warnings.catch_warnings():
-                    warnings.simplefilter("ignore")
-                    r = R.rrulestr(m, **opts)
-                out = "accepted"
-            except ValueError:
-                out = "ValueError"
-            except Exception as ex:
-                out = exc_kind(ex)
-            # a bare DTSTART with forceset is a (possibly empty) set, not malformed; an empty rule list is rejected
-            if m.startswith("DTSTART:") and "," not in m and out == "accepted" and opts:
-                continue
-            if out != "ValueError":
-                ctx.violation("rrulestr(%r, %s): %s instead of ValueError" % (m, opts, out), {"kind": "malformed", "text": m, "opts": sorted(opts), "outcome": out}, None)
 
 KNOWN = {}
 
